@@ -31,7 +31,7 @@ pub struct JMsg {
 /// runtime on which the tasks spawned by JMsg handlers live (driven only by `task` commands)
 pub static TASK_RT: Mutex<Option<tokio::runtime::Handle>> = Mutex::new(None);
 /// spawned tasks waiting to be told how to end, by request id
-pub static TASKS: Mutex<Option<HashMap<u64, tokio::sync::oneshot::Sender<String>>>> = Mutex::new(None);
+pub static TASKS: Mutex<Option<HashMap<u64, (tokio::sync::oneshot::Sender<String>, tokio::task::AbortHandle)>>> = Mutex::new(None);
 #[derive(Debug, Clone, PartialEq)]
 pub struct Val(pub u64);
 #[derive(Debug)]
@@ -141,6 +141,8 @@ fn map_err(e: &Error) -> &'static str {
         Error::Send { .. } => "send",
         Error::Timeout { .. } => "timeout",
         Error::Receive { .. } => "recv",
+        // the JoinError inside says whether the spawned task was cancelled or panicked
+        Error::Join { source, .. } if source.is_cancelled() => "joinc",
         Error::Join { .. } => "join",
         _ => "other",
     }
@@ -619,7 +621,6 @@ impl Message<JMsg> for S {
             }
             // the value the task will produce is fixed here; how it ends is decided by a later `task` command
             let (tx, rx) = tokio::sync::oneshot::channel::<String>();
-            TASKS.lock().unwrap_or_else(|e| e.into_inner()).get_or_insert_with(HashMap::new).insert(msg.m, tx);
             let rt = TASK_RT.lock().unwrap_or_else(|e| e.into_inner()).clone().expect("task runtime");
             let jh = rt.spawn(async move {
                 match rx.await {
@@ -627,6 +628,7 @@ impl Message<JMsg> for S {
                     _ => panic!("scripted"),
                 }
             });
+            TASKS.lock().unwrap_or_else(|e| e.into_inner()).get_or_insert_with(HashMap::new).insert(msg.m, (tx, jh.abort_handle()));
             hexit(&self.sh.name, "handler", msg.m, &out, v);
             self.jl.push("h".into());
             jh
